@@ -254,7 +254,12 @@ func (s *Store[H]) GetByHeight(ctx context.Context, height uint64) (H, error) {
 
 	// if the requested 'height' was not yet published
 	// we subscribe to it
-	err := s.heightSub.Wait(ctx, height)
+	// (looking once more after subscribing: a header appended above a gap since the lookup
+	// above has been notified already and is not covered by the advancing Height)
+	err := s.heightSub.WaitUnless(ctx, height, func() bool {
+		_, err := s.getByHeight(ctx, height)
+		return err == nil
+	})
 	if err != nil && !errors.Is(err, errElapsedHeight) {
 		return zero, fmt.Errorf("awaiting header %d with head %d: %w", height, s.Height(), err)
 	}
